@@ -6,9 +6,13 @@ E = "LLBuild.Engine."
 
 class Check(EngineCheck):
     prop = "C01"
-    module = "LLBuild.Props.C01"
+    # Props/C01All.lean = Props/C01.lean (fixed client program) + Props/C01Gen.lean (the client program changes
+    # between engine lifetimes: histories with `reprogram`, client obligations SigCovers + SelfStable)
+    module = "LLBuild.Props.C01All"
     theorems = [E + "C01_value", E + "C01_inputs", E + "C01_up_to_date_is_clean", E + "C01_value_dsl",
-                E + "DSL.program_WF", E + "step_inv", E + "reach_inv", E + "C01_value_unique", E + "Clean_unique", E + "DSL.program_Det", E + "engine_fingerprint_matches_model"]
+                E + "DSL.program_WF", E + "step_inv", E + "reach_inv", E + "C01_value_unique", E + "Clean_unique", E + "DSL.program_Det", E + "engine_fingerprint_matches_model",
+                E + "C01_value_gen", E + "C01_value_unique_gen", E + "C01_inputs_gen", E + "reachG_inv",
+                E + "NeedSelfStable.C01_value_gen_needs_SelfStable"]
     mix = [(0.55, {}), (0.2, {"threads": True}), (0.25, {"cancel": True})]
     budget = (300, 3000)
 
